@@ -39,6 +39,11 @@ pub trait OrdColl: Sized {
     fn clear(&mut self);
     fn snap_json(&self) -> String;
     fn canon(&self) -> String;
+    /// keys reachable from the root according to the snapshot hook (trees; None for lists): after an
+    /// unlogged replay the harness learns from the same snapshot TLC gets what the collection holds
+    fn stored_keys(&self) -> Option<Vec<i32>> {
+        None
+    }
 }
 
 fn snap_head(o: &mut String, root: u32) {
@@ -62,6 +67,21 @@ struct CNode {
     k: i32,
     v: i32,
 }
+fn keys_of(nodes: &[CNode], root: u32) -> Vec<i32> {
+    fn walk(nodes: &[CNode], i: u32, depth: usize, o: &mut Vec<i32>) {
+        if i == EMPTY_REF || depth > 80 || (i as usize) >= nodes.len() {
+            return;
+        }
+        let n = &nodes[i as usize];
+        walk(nodes, n.l, depth + 1, o);
+        o.push(n.k);
+        walk(nodes, n.r, depth + 1, o);
+    }
+    let mut o = vec![];
+    walk(nodes, root, 0, &mut o);
+    o
+}
+
 fn canon_of(nodes: &[CNode], root: u32, nfree: usize) -> String {
     fn walk(nodes: &[CNode], i: u32, depth: usize, o: &mut String) {
         if i == EMPTY_REF || depth > 80 || (i as usize) >= nodes.len() {
@@ -148,6 +168,11 @@ impl<P: Payload> OrdColl for MapTree<OKey, P> {
         let s = self.verif_snapshot();
         let nodes: Vec<CNode> = s.nodes.iter().map(|n| CNode { l: n.left, r: n.right, red: n.red, k: n.key.0, v: n.val.to_i() }).collect();
         canon_of(&nodes, s.root, s.unused.len())
+    }
+    fn stored_keys(&self) -> Option<Vec<i32>> {
+        let s = self.verif_snapshot();
+        let nodes: Vec<CNode> = s.nodes.iter().map(|n| CNode { l: n.left, r: n.right, red: n.red, k: n.key.0, v: 0 }).collect();
+        Some(keys_of(&nodes, s.root))
     }
 }
 
@@ -276,6 +301,11 @@ impl<P: Payload> OrdColl for SetTree<OKey, PV<P>> {
         let nodes: Vec<CNode> = s.nodes.iter().map(|n| CNode { l: n.left, r: n.right, red: n.red, k: n.value.key.0, v: n.value.payload.to_i() }).collect();
         canon_of(&nodes, s.root, s.unused.len())
     }
+    fn stored_keys(&self) -> Option<Vec<i32>> {
+        let s = self.verif_snapshot();
+        let nodes: Vec<CNode> = s.nodes.iter().map(|n| CNode { l: n.left, r: n.right, red: n.red, k: n.value.key.0, v: 0 }).collect();
+        Some(keys_of(&nodes, s.root))
+    }
 }
 
 // ---- SetTree over plain integers (the library's own `impl KeyValue<i32> for i32`) -------------
@@ -346,6 +376,11 @@ impl OrdColl for SetTree<i32, i32> {
         let s = self.verif_snapshot();
         let nodes: Vec<CNode> = s.nodes.iter().map(|n| CNode { l: n.left, r: n.right, red: n.red, k: n.value, v: n.value }).collect();
         canon_of(&nodes, s.root, s.unused.len())
+    }
+    fn stored_keys(&self) -> Option<Vec<i32>> {
+        let s = self.verif_snapshot();
+        let nodes: Vec<CNode> = s.nodes.iter().map(|n| CNode { l: n.left, r: n.right, red: n.red, k: n.value, v: 0 }).collect();
+        Some(keys_of(&nodes, s.root))
     }
 }
 
@@ -652,7 +687,10 @@ impl<'a, C: OrdColl> OrdSession<'a, C> {
         match o.out {
             Outcome::Ok(c) => {
                 self.c = c;
-                self.mine = mine;
+                self.mine = match self.c.stored_keys() {
+                    Some(ks) => ks.into_iter().collect(),
+                    None => mine,
+                };
             }
             _ => {
                 // replay the path again, this time logged, so that the failing call becomes an event
